@@ -345,7 +345,8 @@ def check_no_hidden_state(r, rule, roots, allowed=(("pyrepseq.nn._to_triplets", 
     from .rules import where_of
     E = effects_for(r)
     reach = E.reachable(roots)
-    bad = [(q, root, e, w) for q, root, e, w in E.global_writes(reach) if (q, root[1]) not in allowed]
+    from .rules import baseline_owners
+    bad = [(q, root, e, w) for q, root, e, w in E.global_writes(reach) if not all((o, root[1]) in allowed for o in baseline_owners(r, q))]
     if not bad:
         r.rep.ob(rule, roots[0], True, f"no function reachable from the entry points keeps state between calls ({len(reach)} functions)", "", key="no hidden state")
     for q, root, e, w in bad:
